@@ -100,18 +100,43 @@ class Tree:
         return sorted(self.snap)
 
     def has_dir_cycle(self):
-        """Some symlink resolves to a directory that contains it (following it repeatedly never ends)."""
+        """Following symlinked directories can go on for ever: the graph real directory -> real directory of an entry
+        (links resolved) has a cycle, or a link leaves the tree."""
         root = os.path.realpath(self.root)
-        for p, e in self.snap.items():
-            if e['link'] and e['isdir']:
+        color = {}
+        bad = [False]
+
+        def visit(d):
+            if bad[0]:
+                return
+            color[d] = 1
+            try:
+                with os.scandir(d) as it:
+                    ents = list(it)
+            except OSError:
+                ents = []
+            for e in ents:
                 try:
-                    real = os.path.realpath(os.path.join(self.root, p))
+                    if not e.is_dir():
+                        continue
+                    t = os.path.realpath(e.path)
                 except OSError:
-                    return True
-                here = os.path.realpath(os.path.dirname(os.path.join(self.root, p)))
-                if here == real or here.startswith(real.rstrip('/') + '/') or not real.startswith(root):
-                    return True
-        return False
+                    if e.is_symlink():
+                        bad[0] = True
+                    continue
+                if t != root and not t.startswith(root + '/'):
+                    if e.is_symlink():
+                        bad[0] = True
+                    continue
+                c = color.get(t)
+                if c == 1:
+                    bad[0] = True
+                elif c is None:
+                    visit(t)
+            color[d] = 2
+
+        visit(root)
+        return bad[0]
 
     def has_eloop_entry(self):
         return any(e['isdir'] is None for e in self.snap.values())
@@ -179,7 +204,8 @@ class Walker:
     """
 
     def __init__(self, root, dot=False, icase=False, globstar=False, globstarlong=False, follow=False,
-                 scandotdir=False, matchbase=False, nodir=False, mark=False, extmatchbase=False, maxdepth=10, nodotdir=False):
+                 scandotdir=False, matchbase=False, nodir=False, mark=False, extmatchbase=False, maxdepth=10, nodotdir=False,
+                 strict_links=False):
         self.root = root
         self.dot = dot
         self.icase = icase
@@ -195,11 +221,13 @@ class Walker:
         self.mark = mark
         self.maxdepth = maxdepth
         self.listed = set()
-        self.listed_via_link_in_globstar = set()
+        self.ls_calls = 0
+        self.strict_links = strict_links
         self._cache = {}
 
     def ls(self, rel):
         self.listed.add(rel)
+        self.ls_calls += 1
         if rel in self._cache:
             return self._cache[rel]
         full = os.path.join(self.root, rel) if rel else self.root
@@ -275,6 +303,9 @@ class Walker:
             lt = R.literal_text(R.norm_seg(seg))
             if lt is not None and not self.icase:
                 child = lt if not cur else cur + '/' + lt
+                # an implementation may list the parent to look a literal name up
+                self.listed.add(cur)
+                self.ls_calls += 1
                 if not self.lexists(child):
                     return
                 d = self.isdir(child)
@@ -326,7 +357,7 @@ class Walker:
                     add(child, cert, isdir)
                 if isdir and (not islink or self.follow or long_):
                     walk_gs(i, child, cert, depth + 1, long_, last, first=False)
-                elif isdir and not last:
+                elif isdir and not last and not self.strict_links:
                     # a symlinked directory matched by the last position of `**`, with written segments following: Bash
                     # continues through it, wcmatch does not; the property text does not settle it -> MAY
                     go(i + 1, child, False, depth + 1)
